@@ -26,10 +26,11 @@ const idleRereads = 10
 func Spec() *run.Spec {
 	return &run.Spec{
 		ID: "C11", Level: "exploration",
-		Rule: "case = one random DAG (shape chain/diamond/fan-in/shared/random, 3-25 harness-defined nodes.Struct nodes: unary, binary, 3-input, array and mixed inputs, string- and int-valued, order-sensitive, plus two kinds whose processor returns (fallback value, error) for some inputs and targeted fail -> read -> recover -> read sequences over them; 1-6 string/int sources of kind parameter.Value[T] / nodes.ValueNode[T]; in 3 of 5 histories also 1-2 composite-valued sources, parameter.Vector3Array and parameter.Value[Rec] (harness struct: int, string, []int, nested struct, map), each read through an adapter node at the bottom of the graph) driven through 20-200 operations " +
+		Rule: "case = one random DAG (shape chain/diamond/fan-in/shared/random, 3-25 harness-defined nodes.Struct nodes: unary, binary, 3-input, array and mixed inputs, string- and int-valued, order-sensitive, plus two kinds whose processor returns (fallback value, error) for some inputs and targeted fail -> read -> recover -> read sequences over them; 1-6 string/int sources of kind parameter.Value[T] / nodes.ValueNode[T]; in 4 of 5 histories also 1-3 further sources, each read through an adapter node at the bottom of the graph: parameter.Vector3Array, parameter.Value[Rec] (harness struct: int, string, []int, nested struct, map), float64 sources (nodes.ValueNode / parameter.Value; values: +0 and -0 half of the time, denormals, +-MaxFloat64, 0.1+0.2 vs 0.3, for ValueNodes also +-Inf and NaNs with different payloads) under sign-of-zero-sensitive processors (bit pattern, 1/x, Atan2+Signbit), []float64 sources (ValueNode: updated by fresh slices and by editing the slice in place and calling Set with the same slice; parameter.Value: JSON) and map[string]int ValueNodes (fresh maps and in-place edits + Set(same map)); the mirror compares floats by their bits) driven through 20-200 operations " +
 			"(parameter update; for parameter.Value sources through ApplyMessage, for the struct source also messages that leave fields out or are null; a quarter of the messages to parameter.Value sources are messages the source must reject: valid JSON whose beginning decodes before a wrongly typed element / field follows, a value of the wrong shape, or a cut-off message; set/replace/clear a named input, array add/remove, read of an arbitrary node); every read is followed by 10 idle re-reads. After every operation: Version() delta == executions recorded by the processors (0 or 1) for every node, " +
 			"no execution outside a read, an executed node must have a change (parameter update in its transitive inputs or SetInput on the way, its own included) since its previous execution, the value read equals a from-scratch evaluation of the mirrored graph, State() agrees with the mirror's staleness. A rejected message changes nothing in the mirror: after it ApplyMessage must have returned an error, Version() of the source is unchanged, Value() (directly and through the output) and the decoded ToMessage() equal the mirrored value (also checked after every accepted message), nothing above may execute; targeted sequence: source holds an applied value -> read above -> 1-2 rejected messages -> read -> the consumer's input is re-installed (it executes again) -> read. " +
 			"Phase lazy-inputs: the same with three more processor kinds that read only some of their wired inputs (Sel: condition picks one of two branches; First: first array entry only; Until: array entries up to the first odd value), plus targeted sequences (read while a branch is unread, change something below the unread branch, let another consumer process it, re-wire it, flip the condition, read: the value must come from the new branch); an execution is only flagged when no parameter in the node's wired transitive inputs and no wiring changed, State() must be Stale when an input the processors actually read changed. " +
+			"Directed sequence (about 1 in 12 operations where such a source exists): a float / slice / map source below a node that was read moves 0 -> -0 -> 0 (slices: the signs of all zeros flipped, in place or as a fresh slice; maps: in-place edit + Set(same map)) with a read of the node above after every move: every such Set is a change of the source, the nodes above must be Stale and the value read must be the from-scratch one; a Set of a bit-identical value may or may not count as a change, as before. " +
 			"Directed sequence (all phases, about 1 in 20 operations): a node that has executed loses every wired input (named inputs cleared, array entries removed down to the empty array), then it and a consumer are read. " +
 			"Phase first-use: every case runs in a worker process of its own, so the processor types are new to polyform; per kind (3-9 of the kinds with named inputs) a sparse instance (some / the only named input unwired) and a full instance are built, in half of the cases the sparse instances execute first, in the other half the full ones; per open input: its source on the full instance changes, read; the input is wired on the sparse instance, read, its source changes, read; then 10-40 random operations; same checks (every case counts as non-trivial). In the batched phases the harness records per worker process which named inputs were unwired on the first instance of each kind that executed, and counts the later reads of other instances (other cases) that have such an input wired and changed. " +
 			"Non-trivial: the history re-reads a node whose cone contains a node with >= 2 dependencies at different versions (the state in which a permuted dependency order shows). Distinctness: shape / node-count bucket / source count / longest array bucket / history length bucket.",
@@ -43,28 +44,42 @@ func Spec() *run.Spec {
 		},
 		MinNontrivial: map[string]int{"quick": 100, "thorough": 300},
 		MinObserved: map[string]int64{
-			"idle_rereads":                                           2000,
-			"reads_mixed_dep_versions":                               300,
-			"executions":                                             1000,
-			"reads_array_ge10_in_cone":                               50,
-			"state_checks":                                           5000,
-			"ops_array_remove":                                       50,
-			"ops_set_named_replace":                                  50,
-			"ops_update_parameter.Value":                             50,
-			"ops_update_nodes.ValueNode":                             50,
-			"lazy_scenario_condition_flipped":                        100,
-			"fail_scenario_recovered":                                100,
-			"fail_scenario_made_to_fail":                             100,
-			"executions_ending_in_error":                             500,
-			"rejected_messages_[]vector3.Float64":                    500,
-			"rejected_messages_c11.Rec":                              500,
-			"rejected_messages_to_a_source_holding_an_applied_value": 1000,
-			"source_reader_checks":                                   5000,
-			"reject_scenario_consumer_reexecuted_and_read":           500,
-			"ops_update_struct_with_fields_left_out":                 200,
-			"reads_over_a_failed_node":                               500,
-			"lazy_scenario_branch_processed_elsewhere":               30,
-			"lazy_scenario_unread_input_rewired":                     30,
+			"idle_rereads":                                2000,
+			"reads_mixed_dep_versions":                    300,
+			"executions":                                  1000,
+			"reads_array_ge10_in_cone":                    50,
+			"state_checks":                                5000,
+			"ops_array_remove":                            50,
+			"ops_set_named_replace":                       50,
+			"ops_update_parameter.Value":                  50,
+			"ops_update_nodes.ValueNode":                  50,
+			"lazy_scenario_condition_flipped":             100,
+			"fail_scenario_recovered":                     100,
+			"fail_scenario_made_to_fail":                  100,
+			"executions_ending_in_error":                  500,
+			"executed_node_lost_its_last_input_then_read": 500,
+			"executed_node_array_emptied_then_read":       100,
+			"first_use_cases_in_a_fresh_process":          40,
+			"first_use_input_unwired_on_first_instance_wired_on_later_instance_changed_and_read":  30,
+			"first_use_input_unwired_at_first_execution_wired_later_changed_and_read":             60,
+			"first_use_input_wired_on_first_instance_changed_and_read":                            30,
+			"reads_type_first_seen_with_input_unwired_in_an_earlier_case_later_wired_and_changed": 500,
+			"executions_with_an_input_unwired_that_was_wired_when_the_type_first_executed":        500,
+			"zero_sign_flips_below_a_read_node":                                                   1000,
+			"sets_of_a_float_that_is_equal_but_not_bit_identical":                                 1000,
+			"sets_of_a_slice_edited_in_place":                                                     500,
+			"sets_of_a_map_edited_in_place":                                                       500,
+			"in_place_map_edits_below_a_read_node":                                                300,
+			"ops_update_float64":                                                                  2000,
+			"rejected_messages_[]vector3.Float64":                                                 500,
+			"rejected_messages_c11.Rec":                                                           500,
+			"rejected_messages_to_a_source_holding_an_applied_value":                              1000,
+			"source_reader_checks":                                                                5000,
+			"reject_scenario_consumer_reexecuted_and_read":                                        500,
+			"ops_update_struct_with_fields_left_out":                                              200,
+			"reads_over_a_failed_node":                                                            500,
+			"lazy_scenario_branch_processed_elsewhere":                                            30,
+			"lazy_scenario_unread_input_rewired":                                                  30,
 		},
 		Phases: []run.Phase{
 			{Name: "histories", Cases: func(t string) int {
@@ -155,6 +170,24 @@ func (h *hist) src() srcFns {
 			}
 			return h.lp[r.idx].outR(h.r.Intn(2) == 0)
 		},
+		f: func(r *ref) nodes.NodeOutput[float64] {
+			if r == nil {
+				return nil
+			}
+			return h.lp[r.idx].outF(h.r.Intn(2) == 0)
+		},
+		fs: func(r *ref) nodes.NodeOutput[[]float64] {
+			if r == nil {
+				return nil
+			}
+			return h.lp[r.idx].outFs(h.r.Intn(2) == 0)
+		},
+		mp: func(r *ref) nodes.NodeOutput[map[string]int] {
+			if r == nil {
+				return nil
+			}
+			return h.lp[r.idx].outM(h.r.Intn(2) == 0)
+		},
 	}
 }
 
@@ -170,6 +203,12 @@ func (h *hist) output(r *ref) nodes.NodeOutputReference {
 		return s.i(r)
 	case tV:
 		return s.v(r)
+	case tF:
+		return s.f(r)
+	case tFs:
+		return s.fs(r)
+	case tM:
+		return s.mp(r)
 	}
 	return s.c(r)
 }
@@ -191,8 +230,8 @@ func history(c *run.Ctx, lazy bool) run.Result {
 		nops = 20 + r.Intn(40)
 	}
 	nc := 0 // composite-valued sources (slice- / struct-typed parameter.Value)
-	if r.Intn(5) < 3 {
-		nc = 1 + r.Intn(2)
+	if r.Intn(5) < 4 {
+		nc = 1 + r.Intn(3)
 	}
 	h.m = genGraph(r, shape, nn, np, nc, lazy)
 	m := h.m
@@ -239,6 +278,9 @@ func (h *hist) build() bool {
 	if p := run.Try(func() {
 		for k := range m.params {
 			pv := r.Intn(2) == 0 || m.params[k].t == tV || m.params[k].t == tR
+			if m.params[k].t == tM || (m.params[k].t == tFs && r.Intn(3) != 0) {
+				pv = false // in-place edits need a nodes.ValueNode
+			}
 			h.lp = append(h.lp, buildParam(&m.params[k], pv, fmt.Sprintf("p%d", k)))
 			if pv {
 				res.SetAdd("source_kinds", "parameter.Value["+m.params[k].t.String()+"]")
@@ -315,6 +357,9 @@ func (h *hist) randomOp() {
 		return
 	}
 	if r.Intn(20) == 0 && h.emptyScenario() {
+		return
+	}
+	if r.Intn(12) == 0 && h.floatScenario() {
 		return
 	}
 	if r.Intn(14) == 0 && h.failScenario() {
@@ -401,6 +446,10 @@ func (h *hist) updateParamParity(k int, same bool, parity int) { h.updateParamOp
 
 // sign +1 / -1 forces the sign of an int value (0 = any).
 func (h *hist) updateParamOpts(k int, same bool, parity int, sign int) {
+	if t := h.m.params[k].t; t == tF || t == tFs || t == tM {
+		h.updateFloaty(k, same, nil, 0)
+		return
+	}
 	m := h.m
 	p := &m.params[k]
 	lp := h.lp[k]
@@ -620,6 +669,10 @@ func (h *hist) rejectedMessage(k int) (msg, variant string) {
 		return strings.TrimSuffix(recJSON(n, all), "}"), "cut off"
 	case tS:
 		return []string{"12", `{"a":1}`, `["x"]`, `"unterminated`}[r.Intn(4)], "wrong type for a string"
+	case tF:
+		return []string{`"abc"`, "true", "[1]", "{", `{"x":0}`}[r.Intn(5)], "wrong type for a float"
+	case tFs:
+		return []string{`[-0,5e-324,"x"]`, `[1.5,[2]]`, `{"a":1}`, "[0,-0", "7"}[r.Intn(5)], "good elements then a wrongly typed one / wrong shape for a float slice"
 	}
 	return []string{`"abc"`, "1.5", "[1]", "{"}[r.Intn(4)], "wrong type for an int"
 }
